@@ -45,6 +45,10 @@ func main() {
 		os.Exit(cmdReplay(os.Args[2:]))
 	case "variants":
 		os.Exit(cmdVariants(os.Args[2:]))
+	case "variants-real":
+		os.Exit(cmdVariantsReal(os.Args[2:]))
+	case "debug-json":
+		debugJSONTemporal()
 	case "debug-values":
 		debugValues(os.Args[2:])
 	case "debug-reads":
